@@ -74,7 +74,7 @@ def main():
                                 'detail': [l.strip() for l in o.split('\n') if l.startswith('  ')][:6]}
         # test suite with the change: must pass
         if not skip_tests:
-            rc, o = sh('cargo test --workspace --no-fail-fast --offline 2>&1 | grep -E "^test result|FAILED|failed|panicked" | head -40', cwd=repo, timeout=7200, env={'CARGO_TARGET_DIR': '/tmp/seedwork/tgt-tests'})
+            rc, o = sh('cargo test --workspace --no-fail-fast --offline 2>&1 | grep -E "^test result|FAILED|failed|panicked" | head -40', cwd=repo, timeout=7200, env={'CARGO_TARGET_DIR': os.environ.get('SEED_TGT', '/tmp/seedwork/tgt-tests')})
             fails = [l for l in o.split('\n') if 'FAILED' in l or ('failed' in l and 'test result' in l and ' 0 failed' not in l)]
             res['tests_pass_with_change'] = (not fails and 'test result' in o)
             res['tests_tail'] = o[-600:]
